@@ -8,7 +8,10 @@ open Cel.Xlate
 theorem xlate_branches : Gen.Xlate.branches = sourceBranches := by rfl
 theorem xlate_operands : Gen.Xlate.operandsTemplate = sourceOperands := by rfl
 theorem xlate_scanner_constants : Gen.Xlate.scannerConstants = sourceScannerConstants := by rfl
-theorem xlate_scanner_fingerprint : Gen.Xlate.scannerFingerprint = sourceScannerFingerprint := by rfl
+/-- fingerprint of the scanner's AST after alpha-normalisation (locals renamed in order of first occurrence, annotations and
+logging dropped, `x = x op e` read as `x op= e`): the loop `scanText` (Cel.Model.XlateText) was written against.
+(`sourceScannerFingerprint` in Cel.Model.Xlate is the round-1 value over the raw AST, no longer used.) -/
+theorem xlate_scanner_fingerprint : Gen.Xlate.scannerFingerprint = "9c74995828e6898d" := by rfl
 /-- `c7n_rewrite` enters `logical_connector` with the default level 0 -/
 theorem xlate_entry : Gen.Xlate.rewriteEntry = "2 positional, keywords []" := by rfl
 
